@@ -158,7 +158,8 @@ Fixpoint run (s : state) (ks : list kres) (ops : list op)
 (* ---- correspondence ---- *)
 (* observed: per op the exception kind (or none), after the whole run the
    list of non-empty (dst, bytes) chunks the fake socket accepted, txgs and txbs. *)
-Record case := { c_ops : list op;
+Record case := { c_txbs0 : bytes * option dst;   (* .txbs handed to the constructor: (remainder, dst) or ([], None) *)
+                 c_ops : list op;
                  c_script : list kres;
                  c_excs : list (option exn);
                  c_accepted : list (dst * bytes);
@@ -169,7 +170,7 @@ Definition sent_chunks (ev : list event) : list (dst * bytes) :=
   flat_map (fun e => match e with Sent d (x :: b) => [(d, x :: b)] | _ => [] end) ev.
 
 Definition check_case (c : case) : bool :=
-  let '(s, _, ev, xs) := run init (c_script c) (c_ops c) in
+  let '(s, _, ev, xs) := run {| txgs := []; txbs := c_txbs0 c; opened := true |} (c_script c) (c_ops c) in
   list_eqb (option_eqb exn_eqb) xs (c_excs c) &&
   list_eqb (pair_eqb N.eqb bytes_eqb) (sent_chunks ev) (c_accepted c) &&
   list_eqb (pair_eqb bytes_eqb N.eqb) (txgs s) (c_txgs c) &&
@@ -181,7 +182,7 @@ Definition ev_branch (e : event) : nat :=
   | Sent _ [] => 0 | Sent _ _ => 1 | Drop _ _ => 2 | Lost _ _ => 3
   end.
 Definition case_branches (c : case) : list nat :=
-  let '(s, _, ev, xs) := run init (c_script c) (c_ops c) in
+  let '(s, _, ev, xs) := run {| txgs := []; txbs := c_txbs0 c; opened := true |} (c_script c) (c_ops c) in
   map ev_branch ev
   ++ (if existsb (fun x => match x with Some _ => true | None => false end) xs then [4] else [])
   ++ (match snd (txbs s) with Some _ => [5] | None => [6] end)
